@@ -39,6 +39,27 @@ CLAIMED = {
    note="Trusted: TLC, harness loggers. Buffers hold small integers (exact in f32). Delay rings and boxed signals are the crates.io 0.11.0 copies that "
         "dasp_graph links at the pinned commit (DESIGN section 2).",
    design="5/C16"),
+ "C11": dict(
+   text="RmsCore.tla holds the RMS model once (layer 1: the last N frames as exact values, true mean square; layer 2: the running sum over "
+        "RingBuffer.tla's Fixed); MC_Rms instantiates it over integers and TLC checks SumIsWindow/NonNeg/ResetInit for N 1..3 (1..4 thorough) and all "
+        "histories with resets to length 3N+2, emitting them as exact-domain stimuli; Rms.tla instantiates the same definitions over dyadic rationals "
+        "for trace validation. The harness runs next/next_squared/current/reset and the signal adaptor (N <= 64, 1-4 channels, f32/f64/i8/i16/i32/u16, "
+        "exact-domain and full-precision bursts) in the std build and, from a separate no_std workspace, the f32/f64 detector in the no_std build; TLC "
+        "validates each output against the exact window sum with a rigorous running error budget, sqrt by squaring (std: correctly rounded within the "
+        "budget; no_std: within 7% + negligible absolute term), non-negativity, finiteness and reset = fresh detector.",
+   note="Trusted: TLC, Big/Dyadic, harness loggers. The error budget is rigorous for running-sum and recomputing implementations (constant 4u per step, "
+        "see Trace_Rms header), not for arbitrary ones. The signal adaptor is not built under no_std (dasp_signal needs nightly there).",
+   design="5/C11"),
+ "C19": dict(
+   text="Envelope.tla models the rectifiers on the signed image of every format and the one-pole detector env' = d + g(env - d) with attack/release "
+        "selection and gains set by new/set_attack/set_release. TLC checks Between/ZeroTime/Monotone/SetLater on rational gains {0, 1/2, 3/4} and emits "
+        "the histories; the harness runs all three rectifiers on boundary values of all 14 formats x 1-4 channels, and peak/RMS envelope detection on "
+        "f32/f64/i16 frames with attack/release in {0, 1/4, 1/2, 1, 2, 5, 64} frames changed mid-run, logging the gain as a hint that the trace spec "
+        "first verifies (hint^n * e = 1 within (n+2) 2^-22 via a rational enclosure of e); TLC validates rectifier outputs exactly and every envelope "
+        "output against the recurrence (4 ulp at the operands' magnitude), between-ness, exact equality at time 0, and that setters only affect later frames.",
+   note="Trusted: TLC, Big/Dyadic/SampleFormats, harness loggers. Time constants are limited to the listed values (the gain law is pinned by g^n e = 1); "
+        "i16 input -32768 is excluded (negating it overflows inside the detector: outside 'negated amplitude is representable').",
+   design="5/C19"),
  "C12": dict(
    text="Fork.tla models the fork at two layers (ForkShared as coded over RingBuffer.tla's Bounded; per-branch positions). TLC explores "
         "the whole tree of branch schedules (length 9 quick / 11 thorough, capacity 1..3 / 1..4, every start offset, with re-splits, lead <= capacity) "
@@ -99,7 +120,7 @@ NOT_YET = "framework under construction in this session; check not built yet (wi
 
 m = {
  "version": 1,
- "setup_cmd": "cd /verif/harness && cargo build --offline --workspace -q && cargo build --offline --workspace --release -q",
+ "setup_cmd": "cd /verif/harness && cargo build --offline --workspace -q && cargo build --offline --release -q -p hx_sample && cd /verif/harness_nostd && cargo build --offline -q -p hx_rms_nostd",
  "hooks": {
   "guard": "rustaudio_dasp_verif",
   "enable": "rustflags --cfg rustaudio_dasp_verif in /verif/harness/.cargo/config.toml (cargo is always run from /verif/harness)",
